@@ -1,7 +1,8 @@
 #!/bin/bash
 # Runs every seeded change against the quick checks of the properties whose code it touches.
-cd /verif
-out=/verif/seeded/MATRIX.txt
+V=${VERIF_DIR:-/verif}; R=${VERIF_REPO_DIR:-/repo}  # an isolated copy: VERIF_DIR=<copy of /verif> VERIF_REPO_DIR=VERIF_REPO=<worktree of /repo>
+cd $V
+out=$V/seeded/MATRIX.txt
 : > $out
 for d in seeded/*/; do
   s=$(basename $d)
@@ -23,4 +24,4 @@ for d in seeded/*/; do
   esac
   tools/seed.sh run $s $ids 2>&1 | tee -a $out
 done
-git -C /repo status --short
+git -C $R status --short
